@@ -150,6 +150,11 @@ type c03Cfg struct {
 	PKCE           string // "" | S256
 	SkipNonce      bool
 	Store          string // cookie | redis
+	// secondary dimensions, rotated over the configurations (not part of the cell): custom cookie name, custom proxy
+	// prefix, sign-in page instead of --skip-provider-button
+	CookieName string
+	Prefix     string
+	SignInPage bool
 }
 
 func c03B(b bool) string { return strconv.FormatBool(b) }
@@ -164,7 +169,13 @@ func (c c03Cfg) Label() string {
 
 func (c c03Cfg) flags(w *vfWorld, secret string, encode bool) []string {
 	f := []string{"--cookie-csrf-per-request=" + c03B(c.PerReq), "--encode-state=" + c03B(encode), "--insecure-oidc-skip-nonce=" + c03B(c.SkipNonce),
-		"--skip-provider-button=true", "--cookie-secret=" + secret}
+		"--skip-provider-button=" + c03B(!c.SignInPage), "--cookie-secret=" + secret}
+	if c.CookieName != "" {
+		f = append(f, "--cookie-name="+c.CookieName)
+	}
+	if c.Prefix != "" {
+		f = append(f, "--proxy-prefix="+c.Prefix)
+	}
 	if c.PKCE != "" {
 		f = append(f, "--code-challenge-method="+c.PKCE)
 	}
@@ -227,6 +238,14 @@ func c03Start(inst *c03Inst, b *vfBrowser, bi int, kind, id string) (*c03Login, 
 			// the browser already holds a session (an earlier login of the history completed): the protected URL is simply
 			// served, so this login is started explicitly instead
 			return c03Start(inst, b, bi, "start", id)
+		}
+		if resp.Code == 403 && !inst.P.Opts.SkipProviderButton {
+			// sign-in page: the user presses the button, which submits rd=<original URL> to <prefix>/start
+			if !strings.Contains(string(resp.Body), inst.P.Opts.ProxyPrefix+"/start") {
+				return nil, fmt.Errorf("403 for a protected URL is not the sign-in page")
+			}
+			l, err = b.StartLogin(inst.P, ident, target)
+			break
 		}
 		if resp.Code != 302 {
 			return nil, fmt.Errorf("protected URL did not start a login: status %d", resp.Code)
@@ -364,6 +383,7 @@ type c03Witness struct {
 	CookieVariant string
 	State         *string
 	Cookies       [][2]string
+	TakenFrom     string // the login X whose state / cookie the variants were derived from
 	StateLogin    string // login whose nonce the state carries (reference reading), "" if none
 	CodeOf        string
 	Request       *vfReq
@@ -653,7 +673,7 @@ func (cs *c03Case) attempt(R *c03Inst, X *c03Login, sv, cv c03Named, part string
 	resp := R.P.Do(req)
 	o, leaked := cs.observe(R, resp, K.Ident.Email)
 	wit := &c03Witness{Config: cs.Cfg.Label() + ",store=" + cs.Cfg.Store, ReceiverFlags: R.P.Flags, Receiver: R.Role, Part: part, StateVariant: sv.Name, CookieVariant: cv.Name,
-		State: sv.State, Cookies: cv.Cks, CodeOf: K.ID, Request: req, May: may, Must: must}
+		State: sv.State, Cookies: cv.Cks, CodeOf: K.ID, Request: req, May: may, Must: must, TakenFrom: X.ID}
 	if L != nil {
 		wit.StateLogin = L.ID
 	}
@@ -698,7 +718,16 @@ func c03Configs(thorough bool) []c03Cfg {
 				}
 				k++
 				for _, st := range stores {
-					out = append(out, c03Cfg{PerReq: pr, Encode: en, PKCE: bind.pk, SkipNonce: bind.skip, Store: st})
+					c := c03Cfg{PerReq: pr, Encode: en, PKCE: bind.pk, SkipNonce: bind.skip, Store: st}
+					switch len(out) % 4 {
+					case 1:
+						c.CookieName = "c03_sess"
+					case 2:
+						c.Prefix = "/auth2"
+					case 3:
+						c.SignInPage = true
+					}
+					out = append(out, c)
 				}
 			}
 		}
@@ -1048,7 +1077,7 @@ func c03Histories(cs *c03Case, A *c03Inst, rng *mrand.Rand) {
 			latest := started[op.B][len(started[op.B])-1] == X
 			expectHeld := attempted[X] == 0 && (cs.Cfg.PerReq || (latest && lastCallbackSeq[op.B] < startSeq[X]))
 			wit := &c03Witness{Config: cs.Cfg.Label() + ",store=" + cs.Cfg.Store, ReceiverFlags: A.P.Flags, Receiver: A.Role, Part: "jar-history/" + h.Family, StateVariant: "verbatim",
-				CookieVariant: fmt.Sprintf("jar(%d cookies, own present=%v)", len(cks), inJar), State: &X.State, Cookies: cks, CodeOf: X.ID, May: may, Must: must, History: append([]string{}, trail...), reusesTicket: hasSession}
+				CookieVariant: fmt.Sprintf("jar(%d cookies, own present=%v)", len(cks), inJar), State: &X.State, Cookies: cks, CodeOf: X.ID, TakenFrom: X.ID, May: may, Must: must, History: append([]string{}, trail...), reusesTicket: hasSession}
 			if L != nil {
 				wit.StateLogin = L.ID
 			}
